@@ -202,5 +202,5 @@ def run(model, tier):
     pairing(model, res)
     interface_continuity(model, res)
     from . import c13_eikonal
-    c13_eikonal.eikonal(model, res)
+    c13_eikonal.eikonal(model, res, tier)
     return res
